@@ -89,7 +89,7 @@ def build_crate(dirpath):
 
 # ------------------------------------------------------------------ native back end
 
-def run_native(crate, env_cfg, tests="u6x", threads=3, timeout=900, tag="native"):
+def run_native(crate, env_cfg, tests=("u6x",), threads=3, timeout=900, tag="native"):
     """cargo test --release (rustc, no Kani) on the scratch crate; returns (ops, cex, raw, secs).
     ops[op] = dict(worlds, ran, fails{cat:n}, shape)."""
     env = dict(os.environ)
@@ -97,21 +97,21 @@ def run_native(crate, env_cfg, tests="u6x", threads=3, timeout=900, tag="native"
     env["CARGO_TARGET_DIR"] = os.path.join(crate, "target-native")
     env.update({k: str(v) for k, v in env_cfg.items()})
     t0 = time.time()
-    cmd = ["timeout", str(timeout), "cargo", "test", "--release", "--offline", "--lib", tests, "--",
-           "--nocapture", "--test-threads=%d" % threads]
+    cmd = ["timeout", str(timeout), "cargo", "test", "--release", "--offline", "--lib", "--"] + list(tests) + [
+        "--nocapture", "--test-threads=%d" % threads]
     p = subprocess.run(cmd, cwd=crate, env=env, capture_output=True, text=True)
     raw = p.stdout + "\n" + p.stderr
     ops, cex = {}, {}
-    for m in re.finditer(r'^U6X op=(\S+) n<=(\d+) s<=(\d+) kinds=(\d+) static=(\d) worlds=(\d+) ran=(\d+) secs=([\d.]+) fails\[(.*?)\]$',
+    for m in re.finditer(r'U6X op=(\S+) n<=(\d+) s<=(\d+) kinds=(\d+) static=(\d) worlds=(\d+) ran=(\d+) secs=([\d.]+) fails\[(.*?)\]$',
                          raw, re.M):
         fails = dict((kv.split('=')[0], int(kv.split('=')[1])) for kv in m.group(9).split() if '=' in kv)
         ops[m.group(1)] = dict(worlds=int(m.group(6)), ran=int(m.group(7)), fails=fails, secs=float(m.group(8)),
                                shape="n<=%s s<=%s kinds=%s static=%s" % m.group(2, 3, 4, 5))
-    for m in re.finditer(r'^U6X-CEX op=(\S+) cat=(\S+) (.*)$', raw, re.M):
+    for m in re.finditer(r'U6X-CEX op=(\S+) cat=(\S+) (.*)$', raw, re.M):
         cex[(m.group(1), m.group(2))] = m.group(3)[:1800]
     return dict(ops=ops, cex=cex, raw=raw[-4000:], secs=time.time() - t0, rc=p.returncode,
-                cmd="U6X_*=%s cargo test --release --offline --lib %s -- --test-threads=%d (scratch crate = vm.rs verbatim via units/vmk + harness.rs + exhaustive.rs)"
-                    % (",".join("%s" % v for v in env_cfg.values()), tests, threads))
+                cmd="U6X_*=%s cargo test --release --offline --lib -- %s --test-threads=%d (scratch crate = vm.rs verbatim via units/vmk + harness.rs + exhaustive.rs)"
+                    % (",".join("%s" % v for v in env_cfg.values()), " ".join(tests)[:80], threads))
 
 
 def run_native_scenario(crate, valgrind=False):
@@ -210,9 +210,10 @@ def run_kani_group(crate, harnesses, cbmc_args=(), harness_timeout=420, wall=240
 
 
 KANI_A_QUICK = ['scenario_pop_during_mark_h']
-KANI_A_SLOW = ['arm_SetIndex_preserves_inv', 'sweep_one_at1', 'process_gray_one_array', 'process_gray_one_enum', 'process_gray_one_struct_t1',
+KANI_A_SLOW = ['arm_SetIndex_preserves_inv', 'sweep_one_at1', 'process_gray_one_array', 'process_gray_one_enum',
                'start_mark_phase_preserves_inv', 'sweep_one_at0', 'write_barrier_post',
                'arm_ArrayPop_preserves_inv', 'arm_ConstructVariant_preserves_inv']
+# process_gray_one_struct_t1 (3-object template) exists in harness.rs but is not run: CBMC needs > 6 GB on the repaired tree
 KANI_B = ['drop_thread_frees_all', 'drop_shared_frees_static_strings', 'drop_shared_no_strings_control']
 
 KANI_OBS = {
@@ -261,16 +262,24 @@ KANI_OBS = {
 
 # ------------------------------------------------------------------ run
 
+ALL_X = ["x_start_mark_phase", "x_process_gray", "x_sweep", "x_write_barrier", "x_api_push_str"] + ["x_arm_" + a for a in ARMS]
+N2 = ("n2", dict(U6X_N=2, U6X_S=2, U6X_KINDS=5, U6X_STATIC=0, U6X_EXACT_N=0), 600,
+      "every heap of <= 2 objects over kinds {Struct(2), Array(1), Enum, Array(2), String}, <= 2 fields each, stack <= 2", ("u6x",))
+
+
 def _native_cfgs(tier):
+    """(name, env, timeout, description of the shape, test filters).  Measured (3 threads): n2 25 s;
+    n3 ~25 min; n3gc ~5 min; n2all ~10 min."""
     if tier == "thorough":
-        return [("n2", dict(U6X_N=2, U6X_S=2, U6X_KINDS=5, U6X_STATIC=0, U6X_EXACT_N=0), 600,
-                 "every heap of <= 2 objects over kinds {Struct(2), Array(2), Array(1), Enum, String}, <= 2 fields each, stack <= 2"),
+        return [N2,
                 ("n3", dict(U6X_N=3, U6X_S=2, U6X_KINDS=3, U6X_STATIC=0, U6X_EXACT_N=1), 7200,
-                 "every heap of exactly 3 objects over kinds {Struct(2), Array(1), Enum}, stack <= 2"),
-                ("n2all", dict(U6X_N=2, U6X_S=3, U6X_KINDS=8, U6X_STATIC=1, U6X_EXACT_N=0), 3600,
-                 "every heap of <= 2 objects over all 8 kinds + one static string, stack <= 3")]
-    return [("n2", dict(U6X_N=2, U6X_S=2, U6X_KINDS=5, U6X_STATIC=0, U6X_EXACT_N=0), 600,
-             "every heap of <= 2 objects over kinds {Struct(2), Array(2), Array(1), Enum, String}, <= 2 fields each, stack <= 2")]
+                 "every heap of exactly 3 objects over kinds {Struct(2), Array(1), Enum}, stack <= 2", tuple(ALL_X)),
+                ("n3gc", dict(U6X_N=3, U6X_S=1, U6X_KINDS=3, U6X_STATIC=0, U6X_EXACT_N=1), 3600,
+                 "every heap of exactly 3 objects over kinds {Struct(2), Array(1), Enum}, stack <= 1", ("x_maybe_gc",)),
+                ("n2all", dict(U6X_N=2, U6X_S=2, U6X_KINDS=8, U6X_STATIC=1, U6X_EXACT_N=0), 3600,
+                 "every heap of <= 2 objects over all 8 kinds (Struct 0/1/2 fields, Array len 0/1/2, Enum, String) + one static string, stack <= 2",
+                 ("u6x",))]
+    return [N2]
 
 
 def run(tier="quick"):
@@ -283,8 +292,8 @@ def run(tier="quick"):
         natives = {}
 
         def nat():
-            for name, cfg, tmo, what in _native_cfgs(tier):
-                natives[name] = (run_native(sc.path, cfg, threads=3, timeout=tmo), what)
+            for name, cfg, tmo, what, tests in _native_cfgs(tier):
+                natives[name] = (run_native(sc.path, cfg, tests=tests, threads=3, timeout=tmo), what)
             natives['_scenario'] = (run_native_scenario(sc.path), "")
 
         nth = threading.Thread(target=nat)
@@ -330,6 +339,11 @@ def run(tier="quick"):
             suffix = "" if name in ("n2",) else "." + name
 
             def mk(oid, props, fn, ops_, cats, text, shakey):
+                asked = dict((c[0], c[4]) for c in _native_cfgs(tier))[name]
+                if asked != ("u6x",):
+                    ops_ = [o for o in ops_ if ("x_" + o) in asked or ("x_arm_" + o) in asked or ("x_api_" + o) in asked]
+                    if not ops_:
+                        return
                 ran = sum(nr['ops'].get(o, {}).get('ran', 0) for o in ops_)
                 missing = [o for o in ops_ if o not in nr['ops']]
                 bad = [(o, c, nr['ops'][o]['fails'][c]) for o in ops_ if o in nr['ops'] for c in cats if nr['ops'][o]['fails'].get(c)]
